@@ -19,6 +19,14 @@ def fr(tok):
     return r
 
 
+def rate(tok):
+    """a solved rate: |v| <= 1e-12 is the 0 the solver meant (cancellation noise such as -7e-17 or 1.9e-17 left by the
+    BMF linear algebra; seven orders of magnitude below precision/work-amount = 1e-5, and every generated capacity,
+    bound and weight is >= 1/64): the property holds up to the configured precision"""
+    r = fr(tok)
+    return F(0) if abs(r) <= F(1, 10 ** 12) else r
+
+
 def q(x):
     x = F(x)
     return [x.numerator, x.denominator]
@@ -172,7 +180,7 @@ def parse_line(line):
                 i += 2 * n
             s.cns.append(k)
         for _ in range(nv):
-            x = {"alive": t[i] != "0", "pen": fr(t[i + 1]), "staged": fr(t[i + 2]), "bound": fr(t[i + 3]), "value": fr(t[i + 4])}
+            x = {"alive": t[i] != "0", "pen": fr(t[i + 1]), "staged": fr(t[i + 2]), "bound": fr(t[i + 3]), "value": rate(t[i + 4])}
             n = int(t[i + 5])
             i += 6
             x["elems"] = [(int(t[i + 2 * j]), fr(t[i + 2 * j + 1])) for j in range(n)]
